@@ -5,7 +5,7 @@
     rebench/denoise.py by harness/c20.py (a fake sudo first on PATH, never the real one). *)
 From Coq Require Import List ZArith Bool Arith Reals.
 Import ListNotations.
-From RV Require Import Lib.Str Gen.GenFactsSession Model.Denoise Proofs.DenoiseP.
+From RV Require Import Lib.Str Gen.GenFactsSession Gen.GenFactsDenoise Model.Denoise Proofs.DenoiseP.
 
 (** For every way the session body can end (normal return with either result, user error, interrupt, any
     other exception), every capability report that is not "everything failed", every list of process
@@ -65,6 +65,17 @@ Theorem C20_floor_ln_correct :
   forall n : Z, (1 <= n < 8104)%Z -> Int_part (ln (IZR n)) = floor_ln n.
 Proof. exact floor_ln_correct. Qed.
 Print Assumptions C20_floor_ln_correct.
+
+(** What the start-up step can report and how the client reads it (both read off the source on every run): the
+    shielding entry of the report is False or the core range that was asked for - never another value that a
+    truthiness test would take for "granted" -, the nice entry is a boolean, the report is built from these two, and
+    the client takes exactly these entries.  So "reported as available" in the wrapper theorem is what cset and nice
+    actually granted. *)
+Theorem C20_startup_report_is_what_was_granted :
+  shielding_reports_false_or_range = true /\ nice_reports_boolean = true
+  /\ report_built_from_them = true /\ client_reads_report = true.
+Proof. repeat split; reflexivity. Qed.
+Print Assumptions C20_startup_report_is_what_was_granted.
 
 (** Non-vacuity. *)
 Example C20_example :
